@@ -47,4 +47,8 @@ func runC08(c *core.Ctx) {
 	ruleNoErrorBuiltAndDropped(c, "C08.errors-reported", "type", "meta/signature", "bus/net")
 	c.Doc("C08.reader-discipline", "readers are only consumed through the repository's decoders", 60)
 	ruleReaderDiscipline(c, d, "C08.reader-discipline", nil)
+	// what the reflection encoder writes the reflection decoder has a case for: a kind the
+	// decoder's switch does not know is skipped without consuming and without an error
+	c.Doc("C08.kind-sets", "reflection encoder and decoder branch on the same reflect kinds (the decoder skips an unknown kind silently)", 1)
+	ruleKindSetsAgree(c, "C08.kind-sets")
 }
